@@ -14,9 +14,11 @@ func mk(id, rule string, p Profile, quick, thorough int, mon func(fw.Case, []str
 		NewReal: func() fw.Real { return newReal() },
 		Monitor: mon,
 		Protected: func(line string) bool {
-			return strings.HasPrefix(line, "v2.reset") || strings.HasPrefix(line, "v2.target") || strings.HasPrefix(line, "v2.state")
+			return strings.HasPrefix(line, "v2.reset") || strings.HasPrefix(line, "v2.target") || strings.HasPrefix(line, "v2.state") ||
+				strings.HasPrefix(line, "v2.drain") || p.Twice
 		},
-		Sigs: map[string]func(fw.Case, []string, string) bool{},
+		RealOnly: func(line string) bool { return strings.HasPrefix(line, "v2.drain") },
+		Sigs:     map[string]func(fw.Case, []string, string) bool{"dirtyValueHistory": dirtySig},
 	}
 }
 
@@ -27,7 +29,54 @@ var base = Profile{Targets: 3, Sets: 5, Faults: true, Verdicts: true, DevErrors:
 var C02 = mk("C02",
 	"histories of 1-5 Sets/rollbacks on 1-3 targets over an adversarial path universe, random work-set scheduling (FIFO/LIFO/random) of the real transaction, proposal, configuration and mastership reconcilers, connection/device faults, plugin verdicts, device error classes, failed and lost writes; "+
 		"every step compares the whole persistent state of twin and implementation. Non-trivial = at least one write happened; distinct = distinct script.",
-	base, 150, 5000, nil)
+	base, 150, 5000, monitorC02)
+
+var conv = Profile{Targets: 2, Sets: 5, Faults: true, Verdicts: false, DevErrors: true, Injections: false,
+	Rollbacks: true, Serializable: false, Persistent: false, Deletes: true, MaxSteps: 150, Drain: true, CleanPct: 75}
+
+// C04: histories with device/connection faults, driven to the fixed point with everything connected.
+var C04 = mk("C04",
+	"histories of 1-5 Sets/rollbacks on 1-2 targets with devices offline/online, restarting empty and connections replaced at any point, device error classes, random scheduling; at the end every target is connected and the real controllers are driven to their fixed point; "+
+		"monitor: the simulated device holds exactly the live stored values of transactions whose apply did not fail. Non-trivial = at least one write; distinct = distinct script.",
+	conv, 100, 3000, monitorC04)
+
+var crash = Profile{Targets: 2, Sets: 4, Faults: false, Verdicts: false, DevErrors: false, Injections: true,
+	Rollbacks: false, Serializable: false, Persistent: false, Deletes: true, MaxSteps: 120, Drain: true, Twice: true, StartConn: true, CleanPct: 75}
+
+// C07: every history is run twice on the real system: with failed/lost writes at random effect
+// positions, and without; both are driven to the fixed point and must agree.
+var C07 = mk("C07",
+	"histories of 1-4 Sets on 1-2 connected targets in which about every sixth reconcile invocation loses or fails one of its persisted effects (transaction, proposal, configuration writes, side-map half and entry half separately, device Sets) - the unwound invocation stands for a process crash at that point; the same history is replayed without the failures; both runs are driven to the fixed point; "+
+		"monitor: transaction outcomes, stored configurations, cursors and devices are equal. Non-trivial = at least one injected failure; distinct = distinct script.",
+	crash, 100, 3000, monitorC07)
+
+var strand = Profile{Targets: 3, Sets: 5, Faults: true, Verdicts: true, DevErrors: true, Injections: true,
+	Rollbacks: true, Serializable: true, Persistent: true, Deletes: true, MaxSteps: 120, Drain: true}
+
+// C09: any history, then idle: nothing that could make progress may be left behind.
+var C09 = mk("C09",
+	"histories of 1-5 Sets/rollbacks (default and serializable isolation, persistent targets) with verdicts, device errors, faults and lost writes under adversarial scheduling (FIFO/LIFO/random picks from the work set); then every target is connected and the real controllers are swept until a whole sweep writes nothing; "+
+		"monitor: the fixed point is reached and every transaction is APPLIED or FAILED. Non-trivial = at least one write; distinct = distinct script.",
+	strand, 100, 3000, monitorC09)
+
+var master = Profile{Targets: 2, Sets: 4, Faults: true, Verdicts: false, DevErrors: true, Injections: true,
+	Rollbacks: false, Serializable: false, Persistent: false, Deletes: false, MaxSteps: 150, FaultBias: true}
+
+// C10: mastership under connection faults.
+var C10 = mk("C10",
+	"histories of 1-4 Sets on 1-2 targets with frequent connection loss/re-establishment, competing relations, device restarts and lost writes, random interleaving of the mastership, configuration and proposal reconcilers; "+
+		"monitor: terms never decrease and grow by one per assignment, the master is a live relation or none, every southbound request carries the current term over the master's connection and changes are sent only after re-synchronisation in that term. Non-trivial = at least one write; distinct = distinct script.",
+	master, 120, 4000, monitorC10)
+
+var refuse = Profile{Targets: 2, Sets: 5, Faults: false, Verdicts: false, DevErrors: true, Injections: false,
+	Rollbacks: false, Serializable: false, Persistent: false, Deletes: true, MaxSteps: 150, DevBias: true, StartConn: true}
+
+// C11p is the protocol part of C11 (the tables are checked by props/c11): registered under the id C11P and
+// run by ./check C11 as a second correspondence.
+var C11P = mk("C11P",
+	"histories of 1-5 Sets on 1-2 connected targets in which about half of the apply attempts meet a device error class (every refusal class, unavailable, superseded); "+
+		"monitor: a refusal fails exactly that change with the device's class, advances the applied index, leaves the device and all other records alone; unavailable/superseded change nothing. Non-trivial = at least one write; distinct = distinct script.",
+	refuse, 100, 3000, monitorC11)
 
 var multi = Profile{Targets: 3, Sets: 4, Faults: false, Verdicts: true, DevErrors: false, Injections: true,
 	Rollbacks: false, Serializable: true, Persistent: false, Deletes: true, MaxSteps: 160, MultiBias: true, VerdictBias: true}
@@ -42,4 +91,9 @@ var C01 = mk("C01",
 func init() {
 	fw.Register(C01)
 	fw.Register(C02)
+	fw.Register(C04)
+	fw.Register(C07)
+	fw.Register(C09)
+	fw.Register(C10)
+	fw.Register(C11P)
 }
